@@ -1,6 +1,353 @@
-//! C01 — not built yet.
-use crate::rt::*;
+//! C01 — fresh encryptions decrypt to the plaintext, in every scheme, mode and level.
+//! Oracles: the library decryptor AND the independent oracle decryptor (schoolbook phase with
+//! the recovered ternary secret, big-integer rounding); for CKKS the exact noise polynomial
+//! (phase - encoded plaintext) against the deterministic worst-case bound.
 
-pub fn run(_cfg: &Cfg, _rep: &mut Report) -> PropMeta {
-    PropMeta { id: "C01", level: "exploration", rule: "not built", assumptions: vec![], exhaustive: false, floor: 1 }
+use crate::he::*;
+use crate::refm;
+use crate::rt::*;
+use heathcliff::util::BlakeRNG;
+use heathcliff::util::PRNGSeed;
+use heathcliff::*;
+use rand::SeedableRng;
+use serde_json::json;
+
+const P: &str = "C01";
+
+pub fn gen_spec(rng: &mut Rng, big: bool) -> Option<Spec> {
+    let scheme = *rng.pick(&[SchemeType::BFV, SchemeType::BGV, SchemeType::CKKS]);
+    let n = if big { *rng.pick(&[1024usize, 2048, 4096, 8192]) } else { 1usize << rng.range(1, 6) };
+    let logm = (2 * n).trailing_zeros();
+    let k = rng.range(1, 6) as usize;
+    // prime bit sizes: anything from the smallest size that admits an NTT prime up to 60
+    let minb = (logm + 1).max(2);
+    let fam = rng.below(6);
+    let mut bits: Vec<u32> = match fam {
+        0 => (0..k).map(|_| rng.range(50, 60) as u32).collect(),                    // large primes
+        1 => (0..k).map(|_| rng.range(minb as u64, 60) as u32).collect(),            // any size
+        2 => { let mut v: Vec<u32> = (0..k).map(|_| rng.range(30, 60) as u32).collect(); v.sort(); v } // ascending
+        3 => { let mut v: Vec<u32> = (0..k).map(|_| rng.range(30, 60) as u32).collect(); v.sort(); v.reverse(); v } // descending
+        4 => (0..k).map(|_| *rng.pick(&[8u32, 9, 16, 17, 24, 25, 32, 33, 40, 41, 48, 49, 56, 57]).max(&minb)).collect(), // byte-width boundaries
+        _ => (0..k).map(|_| rng.range(20, 40) as u32).collect(),
+    };
+    for b in bits.iter_mut() { if *b < minb { *b = minb; } }
+    let qs = coeff_primes(n, &bits, rng)?;
+    let qmin = *qs.iter().min().unwrap();
+    let (t, tfam) = if scheme == SchemeType::CKKS { (0u64, "none") } else {
+        match rng.below(6) {
+            0 => { // batching prime
+                let tb = rng.range((logm + 1) as u64, 30) as u32;
+                let c = ntt_primes(n, tb, 4, 0).into_iter().find(|c| !qs.contains(c))?;
+                (c, "batching_prime")
+            }
+            1 => (1u64 << rng.range(1, 20), "power_of_two"),
+            2 => (2, "two"),
+            3 => { // larger than the smallest prime (no fast plain lift), still far below Q when k>1
+                let mut c = qmin + 1 + rng.below(1000);
+                loop { if qs.iter().all(|&q| refm::gcd(q, c) == 1) && c >> 60 == 0 { break; } c += 1; }
+                (c, "above_a_prime")
+            }
+            4 => { let mut c = rng.range(3, 1 << 16) | 1; while !qs.iter().all(|&q| refm::gcd(q, c) == 1) { c += 2; } (c, "odd_composite_or_prime") }
+            _ => { let tb = rng.range(2, 40) as u32; let mut c = rng.bits(tb) | (1 << (tb - 1)); if c < 2 { c = 2; } while !qs.iter().all(|&q| refm::gcd(q, c) == 1) { c += 1; } (c, "random") }
+        }
+    };
+    let special_flag = rng.chance(1, 5);
+    let expand = rng.chance(4, 5);
+    Some(Spec { scheme, n, qs, t, special_flag, expand, family: format!("bits{}-t:{}", fam, tfam) })
+}
+
+/// plaintext corner generator for BFV/BGV: (class, coefficients)
+pub fn gen_plain(rng: &mut Rng, n: usize, t: u64) -> (&'static str, Vec<u64>) {
+    match rng.below(9) {
+        0 => ("zero", vec![0]),
+        1 => ("all_t_minus_1", vec![t - 1; n]),
+        2 => ("half_floor", vec![t / 2; n]),
+        3 => ("half_ceil", vec![(t + 1) / 2 % t; n]),
+        4 => { let mut v = vec![0; rng.range(1, n as u64) as usize]; let l = v.len(); v[l - 1] = rng.range(1, t - 1); ("monomial", v) }
+        5 => ("length_1", vec![rng.below(t)]),
+        6 => { let l = rng.range(1, n as u64) as usize; ("short_random", (0..l).map(|_| rng.below(t)).collect()) }
+        7 => ("upper_half_mix", (0..n).map(|_| if rng.bool() { t - 1 - rng.below((t / 2).max(1)) } else { rng.below((t / 2).max(1)) }).collect()),
+        _ => ("full_random", (0..n).map(|_| rng.below(t)).collect()),
+    }
+}
+
+fn blake(rng: &mut Rng) -> BlakeRNG {
+    let mut seed = [0u8; 64];
+    for i in 0..8 { seed[i * 8..i * 8 + 8].copy_from_slice(&rng.u64().to_le_bytes()); }
+    BlakeRNG::from_seed(PRNGSeed(seed))
+}
+
+#[derive(Clone, Copy, PartialEq, Debug)]
+enum Mode { Pk, PkDest, PkPrng, Sk, SkPrng, SkSeed, SkSeedPrng }
+const MODES: [Mode; 7] = [Mode::Pk, Mode::PkDest, Mode::PkPrng, Mode::Sk, Mode::SkPrng, Mode::SkSeed, Mode::SkSeedPrng];
+
+fn encrypt(kit: &Kit, mode: Mode, p: &Plaintext, rng: &mut Rng) -> Result<(Ciphertext, bool), Panicked> {
+    lib(|| {
+        let mut seeded = false;
+        let ct = match mode {
+            Mode::Pk => kit.enc.encrypt_new(p),
+            Mode::PkDest => { let mut c = dirty_ct(kit); kit.enc.encrypt(p, &mut c); c }
+            Mode::PkPrng => { let mut g = blake(rng); kit.enc.encrypt_new_with_u_prng(p, &mut g) }
+            Mode::Sk => { let mut c = dirty_ct(kit); kit.enc.encrypt_symmetric(p, &mut c); c }
+            Mode::SkPrng => { let mut c = Ciphertext::new(); let mut g = blake(rng); kit.enc.encrypt_symmetric_with_u_prng(p, &mut g, &mut c); c }
+            Mode::SkSeed => { let c = kit.enc.encrypt_symmetric_new(p); seeded = c.contains_seed(); if seeded { c.expand_seed(&kit.ctx) } else { c } }
+            Mode::SkSeedPrng => { let mut g = blake(rng); let c = kit.enc.encrypt_symmetric_new_with_u_prng(p, &mut g); seeded = c.contains_seed(); if seeded { c.expand_seed(&kit.ctx) } else { c } }
+        };
+        (ct, seeded)
+    })
+}
+
+/// a destination that already holds something else (different size/level), as the API allows
+fn dirty_ct(kit: &Kit) -> Ciphertext {
+    let mut c = Ciphertext::new();
+    let last = kit.levels.last().unwrap();
+    c.resize(&kit.ctx, last.parms_id(), 3);
+    for x in c.data_mut().iter_mut() { *x = 1; }
+    c
+}
+
+fn encrypt_zero_at(kit: &Kit, mode: Mode, id: &ParmsID, rng: &mut Rng) -> Result<(Ciphertext, bool), Panicked> {
+    lib(|| {
+        let mut seeded = false;
+        let ct = match mode {
+            Mode::Pk => kit.enc.encrypt_zero_new_at(id),
+            Mode::PkDest => { let mut c = dirty_ct(kit); kit.enc.encrypt_zero_at(id, &mut c); c }
+            Mode::PkPrng => { let mut g = blake(rng); kit.enc.encrypt_zero_new_at_with_u_prng(id, &mut g) }
+            Mode::Sk => { let mut c = dirty_ct(kit); kit.enc.encrypt_zero_symmetric_at(id, &mut c); c }
+            Mode::SkPrng => { let mut c = Ciphertext::new(); let mut g = blake(rng); kit.enc.encrypt_zero_symmetric_at_with_u_prng(id, &mut g, &mut c); c }
+            Mode::SkSeed => { let c = kit.enc.encrypt_zero_symmetric_new_at(id); seeded = c.contains_seed(); if seeded { c.expand_seed(&kit.ctx) } else { c } }
+            Mode::SkSeedPrng => { let mut g = blake(rng); let c = kit.enc.encrypt_zero_symmetric_new_at_with_u_prng(id, &mut g); seeded = c.contains_seed(); if seeded { c.expand_seed(&kit.ctx) } else { c } }
+        };
+        (ct, seeded)
+    })
+}
+
+struct Ctx<'a> { cfg: &'a Cfg, grp: &'a str, case: u64 }
+
+fn viol(c: &Ctx, rep: &mut Report, op: &str, class: &str, kind: &str, detail: String, kit: &Kit) {
+    rep.violation(&format!("{}|{}|{}|{}", P, op, class, kind), format!("{} ; params {}", detail, kit.spec.describe()),
+        replay_json(c.cfg, c.grp, c.case, json!({"params": kit.spec.describe(), "op": op, "class": class})));
+}
+
+fn log2q(kit: &Kit, level: usize) -> f64 { kit.level_qs(level).iter().map(|&q| (q as f64).log2()).sum() }
+
+/// does the analytic worst-case bound guarantee correct decryption of a fresh ciphertext at `level`?
+fn precondition(kit: &Kit, level: usize, pk: bool) -> bool {
+    let n = kit.n() as f64;
+    let b = fresh_noise_bound(kit.n(), pk) + modswitch_bound(kit.n()) + n + 2.0;
+    let t = kit.t() as f64;
+    // BFV: t*(B + 1/2) < q/2 ; BGV: t*B + t/2 < q/2 ; with a factor 8 of margin (library's approximate rounding)
+    (t.log2() + b.log2() + 4.0) < log2q(kit, level)
+}
+
+fn check_meta(c: &Ctx, rep: &mut Report, kit: &Kit, ct: &Ciphertext, op: &str, level: usize, scale: f64) -> bool {
+    let want_ntt = kit.spec.scheme != SchemeType::BFV;
+    let ok = ct.size() == 2 && ct.parms_id() == kit.levels[level].parms_id() && ct.is_ntt_form() == want_ntt
+        && ct.scale().to_bits() == scale.to_bits() && ct.correction_factor() == 1 && ct.is_valid_for(&kit.ctx) && !ct.contains_seed();
+    if !ok {
+        viol(c, rep, op, &format!("{}-metadata", kit.spec.scheme_name()), "value",
+            format!("fresh ciphertext metadata wrong: size={} level_ok={} ntt={} scale={} cf={} valid={} seed={}", ct.size(), ct.parms_id() == kit.levels[level].parms_id(),
+                ct.is_ntt_form(), ct.scale(), ct.correction_factor(), ct.is_valid_for(&kit.ctx), ct.contains_seed()), kit);
+    }
+    ok
+}
+
+fn check_exact(c: &Ctx, rep: &mut Report, kit: &Kit, oracle: &Option<Oracle>, ct: &Ciphertext, want: &[u64], op: &str, class: &str, level: usize, pk: bool) {
+    let n = kit.n();
+    let scheme = kit.spec.scheme_name();
+    let pre = precondition(kit, level, pk);
+    let dec = lib(|| kit.dec.decrypt_new(ct));
+    let lift = if kit.levels[0].qualifiers().using_fast_plain_lift { "fastlift" } else { "slowlift" };
+    rep.count("scheme_mode_level", &format!("{}|{}|L{}|{}", scheme, op, level, lift));
+    let dec = match dec { Ok(d) => d, Err(p) => { viol(c, rep, op, &format!("{}-decrypt", scheme), "panic", format!("decrypt panicked: {}", p.0), kit); return; } };
+    if !pre { rep.out_of_precondition += 1; return; }
+    let got = plain_coeffs(&dec, n);
+    let mut w = want.to_vec(); w.resize(n, 0);
+    if got != w {
+        viol(c, rep, op, &format!("{}-{}", scheme, if pk { "pk" } else { "sk" }), "value", format!("library decryption differs from plaintext (class {}, level {}): got {:?} want {:?}", class, level, &got[..n.min(8)], &w[..n.min(8)]), kit);
+    }
+    if dec.is_ntt_form() || dec.coeff_count() > n || dec.coeff_count() == 0 {
+        viol(c, rep, op, &format!("{}-plain-meta", scheme), "value", format!("decrypted plaintext metadata: ntt={} coeff_count={}", dec.is_ntt_form(), dec.coeff_count()), kit);
+    }
+    if let Some(o) = oracle {
+        let (m, budget, _) = if kit.spec.scheme == SchemeType::BFV { o.bfv(&kit.ctx, ct, kit.t()) } else { o.bgv(&kit.ctx, ct, kit.t()) };
+        rep.count("oracle", "oracle_decryptor");
+        rep.min(&format!("oracle_budget_bits_{}", scheme), budget as f64);
+        if m != w {
+            viol(c, rep, op, &format!("{}-{}-oracle", scheme, if pk { "pk" } else { "sk" }), "value", format!("oracle decryption differs from plaintext (class {}, level {}): got {:?} want {:?}", class, level, &m[..n.min(8)], &w[..n.min(8)]), kit);
+        }
+    } else { rep.count("oracle", "library_only"); }
+}
+
+fn bfv_bgv_case(c: &Ctx, rep: &mut Report, rng: &mut Rng, kit: &Kit, oracle: &Option<Oracle>) {
+    let (n, t) = (kit.n(), kit.t());
+    let nplain = if n <= 64 { 4 } else { 1 };
+    for _ in 0..nplain {
+        let (class, coeffs) = gen_plain(rng, n, t);
+        let p = kit.plain_from_coeffs(&coeffs);
+        for &mode in MODES.iter() {
+            let op = format!("encrypt:{:?}", mode);
+            let pk = matches!(mode, Mode::Pk | Mode::PkDest | Mode::PkPrng);
+            match encrypt(kit, mode, &p, rng) {
+                Err(pn) => viol(c, rep, &op, kit.spec.scheme_name(), "panic", format!("encryption of a valid plaintext (class {}) panicked: {}", class, pn.0), kit),
+                Ok((ct, seeded)) => {
+                    if matches!(mode, Mode::SkSeed | Mode::SkSeedPrng) {
+                        let expect_seed = n * kit.level_qs(0).len() >= 9;
+                        rep.count("seeded", if seeded { "seed_stored_and_expanded" } else { "too_small_for_seed" });
+                        if seeded != expect_seed { viol(c, rep, &op, "seed-flag", "value", format!("contains_seed={} but poly has {} words", seeded, n * kit.level_qs(0).len()), kit); }
+                    }
+                    if check_meta(c, rep, kit, &ct, &op, 0, 1.0) {
+                        check_exact(c, rep, kit, oracle, &ct, &coeffs, &op, class, 0, pk);
+                    }
+                    rep.eval(Some(&format!("{}|{}|{:?}|{}|L0", kit.spec.scheme_name(), kit.spec.family, mode, class)));
+                }
+            }
+        }
+    }
+    // zero encryptions at every level
+    for level in 0..kit.levels.len() {
+        let id = *kit.levels[level].parms_id();
+        for &mode in MODES.iter() {
+            let op = format!("encrypt_zero_at:{:?}", mode);
+            let pk = matches!(mode, Mode::Pk | Mode::PkDest | Mode::PkPrng);
+            match encrypt_zero_at(kit, mode, &id, rng) {
+                Err(pn) => viol(c, rep, &op, kit.spec.scheme_name(), "panic", format!("zero encryption at level {} panicked: {}", level, pn.0), kit),
+                Ok((ct, _)) => {
+                    if check_meta(c, rep, kit, &ct, &op, level, 1.0) { check_exact(c, rep, kit, oracle, &ct, &[0], &op, "zero", level, pk); }
+                    let cls = format!("{}|{}|{:?}|zero|L{}", kit.spec.scheme_name(), kit.spec.family, mode, level);
+                    rep.eval(if level > 0 { Some(cls.as_str()) } else { None });
+                }
+            }
+        }
+    }
+}
+
+fn ckks_case(c: &Ctx, rep: &mut Report, rng: &mut Rng, kit: &Kit, oracle: &Option<Oracle>) {
+    let n = kit.n();
+    let enc = kit.ckks.as_ref().unwrap();
+    let slots = n / 2;
+    for level in 0..kit.levels.len() {
+        let id = *kit.levels[level].parms_id();
+        let lq = log2q(kit, level);
+        // magnitude 2^mag, scale 2^s with mag + s + 3 <= log2 q and s + 2 <= log2 q
+        let mag = rng.range(0, 20) as i32 - 10;
+        let smax = (lq - mag.max(0) as f64 - 4.0).floor();
+        if smax < 1.0 { rep.out_of_precondition += 1; continue; }
+        let s = rng.range(1, smax as u64) as i32;
+        let scale = 2f64.powi(s);
+        let cnt = match rng.below(3) { 0 => 1, 1 => slots, _ => rng.range(1, slots as u64) as usize };
+        let vclass = rng.below(4);
+        let values: Vec<C64> = (0..cnt).map(|_| {
+            let m = 2f64.powi(mag) * rng.f64();
+            match vclass { 0 => C64::new(m, 0.0), 1 => C64::new(-m, 0.0), 2 => C64::new(0.0, if rng.bool() { m } else { -m }), _ => C64::new(m * (rng.f64() * 2.0 - 1.0), m * (rng.f64() * 2.0 - 1.0)) }
+        }).collect();
+        let vmax = values.iter().map(|v| v.norm()).fold(0.0, f64::max);
+        let plain = match lib(|| enc.encode_c64_array_new(&values, Some(id), scale)) {
+            Ok(p) => p,
+            Err(pn) => { viol(c, rep, "ckks_encode", "in-domain", "panic", format!("encode panicked: {} (level {}, scale 2^{}, |v|<=2^{})", pn.0, level, s, mag), kit); continue; }
+        };
+        for &mode in MODES.iter() {
+            let op = format!("encrypt:{:?}", mode);
+            let pk = matches!(mode, Mode::Pk | Mode::PkDest | Mode::PkPrng);
+            let (ct, _) = match encrypt(kit, mode, &plain, rng) {
+                Ok(x) => x,
+                Err(pn) => { viol(c, rep, &op, "CKKS", "panic", format!("encryption at level {} panicked: {}", level, pn.0), kit); continue; }
+            };
+            rep.count("scheme_mode_level", &format!("CKKS|{}|L{}", op, level));
+            if !check_meta(c, rep, kit, &ct, &op, level, scale) { continue; }
+            // worst-case coefficient noise: fresh + (public key below the key level) one rounding step
+            let switched = pk && kit.levels[level].prev_context_data().is_some();
+            let b = if switched { fresh_noise_bound(n, true) / 4.0 + modswitch_bound(n) + 1.0 } else { fresh_noise_bound(n, pk) };
+            let fp = ckks_fp_tolerance(n, kit.level_qs(level).len(), vmax, scale);
+            let tol = (n as f64) * (b + 1.0) / scale + fp;
+            let dec = match lib(|| enc.decode_new(&kit.dec.decrypt_new(&ct))) {
+                Ok(d) => d,
+                Err(pn) => { viol(c, rep, &op, "CKKS-decrypt", "panic", format!("decrypt/decode panicked: {}", pn.0), kit); continue; }
+            };
+            let mut worst = 0.0f64;
+            for i in 0..slots { let want = if i < cnt { values[i] } else { C64::new(0.0, 0.0) }; worst = worst.max((dec[i] - want).norm()); }
+            rep.max("ckks_slot_error_over_tolerance", worst / tol);
+            if !(worst <= tol) {
+                viol(c, rep, &op, &format!("CKKS-{}", if pk { "pk" } else { "sk" }), "value", format!("decoded slots differ by {:e} > tolerance {:e} (level {}, scale 2^{}, |v|<=2^{})", worst, tol, level, s, mag), kit);
+            }
+            if let Some(o) = oracle {
+                // exact noise polynomial: phase(ct) - phase((plain, 0)) must be within the deterministic bound
+                let mut triv = Ciphertext::new();
+                triv.resize(&kit.ctx, &id, 2);
+                triv.set_is_ntt_form(true);
+                triv.poly_mut(0).copy_from_slice(plain.data());
+                triv.set_scale(scale);
+                let (ph, _) = o.phase(&kit.ctx, &ct);
+                let (pp, _) = o.phase(&kit.ctx, &triv);
+                let noise = ph.iter().zip(&pp).map(|(a, b)| a.sub(b).to_f64().abs()).fold(0.0, f64::max);
+                rep.count("oracle", "oracle_decryptor");
+                rep.max(&format!("ckks_exact_noise_{}", if switched { "pk_switched" } else if pk { "pk" } else { "sk" }), noise);
+                if noise > b {
+                    viol(c, rep, &op, &format!("CKKS-{}-noise", if pk { "pk" } else { "sk" }), "value", format!("exact fresh noise {} exceeds the worst-case bound {} (level {})", noise, b, level), kit);
+                }
+                // and the oracle's own decoding agrees with the encoded values
+                let coeffs = o.ckks_coeffs(&kit.ctx, &ct);
+                let slots_o = embed_decode(&coeffs);
+                let mut worst = 0.0f64;
+                for i in 0..slots { let want = if i < cnt { values[i] } else { C64::new(0.0, 0.0) }; worst = worst.max((slots_o[i] - want).norm()); }
+                if !(worst <= tol) {
+                    viol(c, rep, &op, &format!("CKKS-{}-oracle", if pk { "pk" } else { "sk" }), "value", format!("oracle-decoded slots differ by {:e} > tolerance {:e} (level {})", worst, tol, level), kit);
+                }
+            } else { rep.count("oracle", "library_only"); }
+            rep.eval(Some(&format!("CKKS|{}|{:?}|v{}|L{}", kit.spec.family, mode, vclass, level)));
+        }
+        // zero encryptions at this level
+        for &mode in MODES.iter() {
+            let op = format!("encrypt_zero_at:{:?}", mode);
+            let pk = matches!(mode, Mode::Pk | Mode::PkDest | Mode::PkPrng);
+            match encrypt_zero_at(kit, mode, &id, rng) {
+                Err(pn) => viol(c, rep, &op, "CKKS", "panic", format!("zero encryption at level {} panicked: {}", level, pn.0), kit),
+                Ok((ct, _)) => {
+                    if !check_meta(c, rep, kit, &ct, &op, level, 1.0) { continue; }
+                    if let Some(o) = oracle {
+                        let (ph, _) = o.phase(&kit.ctx, &ct);
+                        let noise = ph.iter().map(|a| a.to_f64().abs()).fold(0.0, f64::max);
+                        let switched = pk && kit.levels[level].prev_context_data().is_some();
+                        let b = if switched { fresh_noise_bound(n, true) / 4.0 + modswitch_bound(n) + 1.0 } else { fresh_noise_bound(n, pk) };
+                        if noise > b { viol(c, rep, &op, "CKKS-zero-noise", "value", format!("zero encryption phase norm {} exceeds bound {} (level {})", noise, b, level), kit); }
+                    }
+                    rep.eval(None);
+                }
+            }
+        }
+    }
+}
+
+fn one_case(cfg: &Cfg, grp: &str, case: u64, rng: &mut Rng, rep: &mut Report, big: bool) {
+    let Some(spec) = gen_spec(rng, big) else { rep.count("generator", "no_primes_for_sizes"); return; };
+    let kit = match Kit::new(&spec) {
+        Ok(k) => k,
+        Err(e) => { rep.count("generator", "context_rejected"); rep.note(&format!("rejected example: {}", e.chars().take(80).collect::<String>())); return; }
+    };
+    rep.count("generator", "context_ok");
+    rep.count("params", &format!("{}|n={}|k={}", spec.scheme_name(), spec.n, spec.qs.len()));
+    rep.count("param_family", &format!("{}|special={}|expand={}", spec.family, spec.special_flag, spec.expand));
+    let oracle = if spec.n <= cfg.pick(64, 256) {
+        match Oracle::new(&kit.ctx, &kit.sk) {
+            Ok(o) => Some(o),
+            Err(e) => { rep.violation(&format!("{}|keygen|secret|value", P), format!("secret key malformed: {} ; {}", e, spec.describe()), replay_json(cfg, grp, case, spec.describe())); None }
+        }
+    } else { None };
+    let c = Ctx { cfg, grp, case };
+    let before = rep.evaluations;
+    if spec.scheme == SchemeType::CKKS { ckks_case(&c, rep, rng, &kit, &oracle); } else { bfv_bgv_case(&c, rep, rng, &kit, &oracle); }
+    if case < 3 { rep.sample(json!({"group": grp, "case": case, "params": spec.describe(), "levels": kit.levels.len(), "evaluations_in_case": rep.evaluations - before, "oracle": oracle.is_some()})); }
+}
+
+pub fn run(cfg: &Cfg, rep: &mut Report) -> PropMeta {
+    run_cases(cfg, "small", cfg.n(12000, 300000) as u64, rep, |i, rng, rep| one_case(cfg, "small", i, rng, rep, false));
+    run_cases(cfg, "big", cfg.n(64, 800) as u64, rep, |i, rng, rep| one_case(cfg, "big", i, rng, rep, true));
+    PropMeta {
+        id: "C01", level: "exploration",
+        rule: "random parameter sets from corner families (3 schemes, N=2..64 small / 1024..8192 big, 1..6 primes of any admissible size and order, plain modulus families batching prime/2^k/2/above-a-prime/random, special-prime flag, chain expansion) x plaintext corner classes x 7 encryption entry points (public key, destination form, explicit mask generator, secret key, seeded+expanded) x every level (zero encryptions; CKKS plaintexts encoded at every level). distinct = distinct (scheme, parameter family, mode, plaintext class, level) tuples with non-zero plaintext or non-first level",
+        assumptions: vec!["correctness asserted only when t*(21(2N+1)+(N+1)/2+N+2)*16 < q_level (analytic worst case with margin); other cases executed and monitored for panics/metadata only".into(),
+            "oracle decryptor (N<=64 quick, <=256 thorough) trusts refm::intt_ref with the library's published root psi (C09 checks psi)".into(),
+            "entropy override hook makes runs replayable; every draw is still distinct".into()],
+        exhaustive: false, floor: 2000,
+    }
 }
